@@ -4,7 +4,7 @@
 case kinds (both are sent to the Lean model, `request` never returns None):
   formula  one of 25 fixed formulas, evaluated as written; the oracle judges only the shape of the record
   tree     an expression tree (nodes err / num / arr / neg / call ID / bin) rendered fully parenthesised and evaluated under
-           the 10 wrappings of WRAPS, followed by each of its family producers evaluated alone (the observed error code);
+           the 13 wrappings of WRAPS, followed by each of its family producers evaluated alone (the observed error code);
            sources: FIXED_TREES, text spelling an error code, random trees (gen), sweep 1 (producer families x operators),
            sweep 2 (error operand x array operand)
 `gen` / `render` / WRAPS / CODES / `parser` / `model_env` are re-used by the plugins c01, c02 and c03.
@@ -54,8 +54,11 @@ RULE = ('two case kinds, both compared with the Lean model (one c04.batch reques
         '(any of the 11 operators, unary minus, ID()), on the other an error-free array-valued expression of depth <= 2 (array '
         'literal with , ; \\ separators, list-valued variable, range in 4 spellings; flat of length 1/2/3, nested 2x2, column; '
         'also + - * / of equal-shape arrays, one-element arrays and non-zero scalars) or another such node; both orders. Every '
-        'tree is evaluated in 10 forms - bare, under IFERROR/IFNA/ISERROR/ISERR/ISNA/ERROR.TYPE, IFERROR(ID(x)), ISERROR(-(x)), '
-        'IFERROR((x)=1) - followed by each distinct family producer of the tree alone. Tree sources: 19 fixed trees (pre-1900 '
+        'tree is evaluated in 13 forms - bare, under IFERROR(x,777)/IFNA(x,555)/ISERROR/ISERR/ISNA/ERROR.TYPE, IFERROR(ID(x),777), '
+        'ISERROR(-(x)), IFERROR((x)=1,777), and with fallbacks that are false-ish values: IFERROR(x,0), IFNA(x,FALSE), '
+        'IFERROR(x,"") (on an error the answers must be the integer 0 - not FALSE, not 0.0 -, the logical FALSE for #N/A - for '
+        'other codes IFNA(x,FALSE) is not judged - and the empty text; on an error-free value all five IFERROR / IFNA forms must '
+        'hand the value back) - followed by each distinct family producer of the tree alone. Tree sources: 19 fixed trees (pre-1900 '
         'date arithmetic alone and to the right of another error, array next to error, error-free {1,2}+{3,4}); 18 fixed text '
         'trees (each code as a text literal and as a concatenation of two pieces); 700 quick / 8000 thorough random trees x '
         'scale (scale 5 in quick when a modelled function changed or the Lean build broke); 2 quick / 12 thorough rounds x '
@@ -80,8 +83,9 @@ TRUSTED = ['the model has no opinion (result `(o ...)`) about some producers (un
            'non-zero divisors, no unary minus / comparison / & directly on an array value)',
            'comparison with the model: error code and type of the value must match, floats within 4 ulps or 1e-9 relative, '
            'dates within 2 microseconds (+ 2^-49 relative); the oracle compares IFERROR/IFNA of an error-free value with the '
-           'bare value up to 1e-12 relative for floats and otherwise by == and equal type; the expected trap results (777, 555, '
-           'True/False, ERROR.TYPE number) are compared by == only',
+           'bare value up to 1e-12 relative for floats and otherwise by == and equal type; the expected trap results (777, 555, "", '
+           'True/False of IS*, ERROR.TYPE number) are compared by == only, the fallback 0 by == and type int, the fallback FALSE '
+           'by identity',
            'implementation and model receive the same host environment (env_values): the wire rendering of variables, cells and '
            'ranges and the model counterparts of the host functions (raisexl, raisepy, first) are trusted to describe the '
            'values, listeners and Python callables registered on the parser',
@@ -98,7 +102,8 @@ ASSUMPTIONS = ['an expression "is an error" when Parser.parse reports exactly th
                '#GETTING_DATA cannot be written as a literal (the lexer stops at the underscore); it is injected as a variable '
                'or raised by a host function, and so is #ERROR! (never generated as a literal)',
                'an ordinary Python exception raised inside a call counts as the error #ERROR!',
-               'trapping an error value: IFERROR(x,y) = y for all 9 codes (also through ID(x) and (x)=1); IFNA(x,y) = y for '
+               'trapping an error value: IFERROR(x,y) = y for all 9 codes (also through ID(x) and (x)=1), whatever y is - a '
+               'false-ish fallback (0, "", FALSE) is handed back as itself, same type; IFNA(x,y) = y for '
                '#N/A only and the error itself otherwise; ISERROR(x) and ISERROR(-(x)) TRUE; ISERR = the code is not #N/A; ISNA '
                '= the code is #N/A; ERROR.TYPE = 1..8 for #NULL! #DIV/0! #VALUE! #REF! #NAME? #NUM! #N/A #GETTING_DATA; '
                'ERROR.TYPE of #ERROR! is not judged',
